@@ -208,6 +208,20 @@ fn run_call(c: &Call, yield_every: u64) -> Outcome {
 
 static TICKET: AtomicU64 = AtomicU64::new(0);
 
+/// Fresh processes differ in what surrounds them too: locale, time zone, working directory, home - a
+/// result must depend on none of it.
+fn vary_surroundings(cmd: &mut std::process::Command, k: usize) {
+    match k % 3 {
+        1 => {
+            cmd.env("LANG", "de_DE.UTF-8").env("LC_ALL", "de_DE.UTF-8").env("LC_NUMERIC", "de_DE.UTF-8").env("LANGUAGE", "de").env("TZ", "Asia/Kolkata");
+        }
+        2 => {
+            cmd.env("LANG", "C").env("LC_ALL", "C").env("TZ", "UTC").env("RUST_BACKTRACE", "1").env_remove("HOME").env_remove("USER").current_dir("/");
+        }
+        _ => {}
+    }
+}
+
 /// number of pairs of calls whose [begin, end] ticket intervals overlap
 fn overlapping_pairs(mut iv: Vec<(u64, u64)>) -> u64 {
     iv.sort();
@@ -335,7 +349,10 @@ impl Monitor for C16 {
         for s in 0..samples {
             let c = &hist[(s * 7919) % hist.len()];
             if let Some(exe) = &exe {
-                let out = std::process::Command::new(exe).arg("fresh").arg(c.ev.name()).arg(&c.expr).arg(c.ph.enc()).output();
+                let mut cmd = std::process::Command::new(exe);
+                cmd.arg("fresh").arg(c.ev.name()).arg(&c.expr).arg(c.ph.enc());
+                vary_surroundings(&mut cmd, s);
+                let out = cmd.output();
                 match out {
                     Ok(o) if o.status.success() => {
                         let text = String::from_utf8_lossy(&o.stdout).trim_end_matches('\n').to_string();
@@ -379,7 +396,10 @@ impl Monitor for C16 {
                     ctx.stats.inc("fresh_process_spawn_failed");
                     continue;
                 }
-                let out = std::process::Command::new(exe).arg("fresh-seq").arg(&path).output();
+                let mut cmd = std::process::Command::new(exe);
+                cmd.arg("fresh-seq").arg(&path);
+                vary_surroundings(&mut cmd, s / 3);
+                let out = cmd.output();
                 let _ = std::fs::remove_file(&path);
                 let outs: Vec<String> = match out {
                     Ok(o) if o.status.success() => match crate::json::J::parse(String::from_utf8_lossy(&o.stdout).trim()) {
@@ -508,7 +528,7 @@ impl Monitor for C16 {
         pass(true)
     }
     fn rule(&self) -> &'static str {
-        "each of the 16 workers builds its own random history (12 to 300 distinct expressions per evaluator in the quick tier, 40 to 3000 in the thorough tier, depending on the worker - few, so that each is repeated often, or more than a capacity-bounded table would hold; incl. malformed ones, the same expression with changing placeholders back to back, failing calls between good ones, evaluations that fail part-way through (in a later argument, a right operand, an inner call) followed by successful ones of the same and of unrelated expressions, the same text sent to every evaluator) and runs it (A) sequentially, recording the outcome of every distinct (evaluator, expression, placeholder) and comparing repeats, (B) in a shuffled order, (C) on 16 threads concurrently, each thread replaying the history from a different rotation with thread::yield_now() injected at every k-th counted step, (D) as the first call of a fresh process for a sample, (E) as short sequences (3-8 calls: random picks, or runs of neighbouring calls of the history forwards and backwards) each in a fresh process of its own, (F) in fresh processes where 8 threads leave a barrier together and run the same calls (10-40 neighbouring calls of the history, or one function swept over ascending arguments) before anything else has been evaluated, followed by one more sequential pass; histories include inputs of hundreds to thousands of bytes followed by short ones; any call observed with two different outcomes (full comparison including error messages) is a violation; begin/end tickets from one atomic counter show which calls overlapped in time; plus Miri (many seeds) and, in the thorough tier, ThreadSanitizer over a multi-threaded replay; non-trivial = every compared observation; distinct = distinct (evaluator, expression, placeholder, phase)"
+        "each of the 16 workers builds its own random history (12 to 300 distinct expressions per evaluator in the quick tier, 40 to 3000 in the thorough tier, depending on the worker - few, so that each is repeated often, or more than a capacity-bounded table would hold; incl. malformed ones, the same expression with changing placeholders back to back, failing calls between good ones, evaluations that fail part-way through (in a later argument, a right operand, an inner call) followed by successful ones of the same and of unrelated expressions, the same text sent to every evaluator) and runs it (A) sequentially, recording the outcome of every distinct (evaluator, expression, placeholder) and comparing repeats, (B) in a shuffled order, (C) on 16 threads concurrently, each thread replaying the history from a different rotation with thread::yield_now() injected at every k-th counted step, (D) as the first call of a fresh process for a sample (fresh processes also vary locale, time zone, working directory and home), (E) as short sequences (3-8 calls: random picks, or runs of neighbouring calls of the history forwards and backwards) each in a fresh process of its own, (F) in fresh processes where 8 threads leave a barrier together and run the same calls (10-40 neighbouring calls of the history, or one function swept over ascending arguments) before anything else has been evaluated, followed by one more sequential pass; histories include inputs of hundreds to thousands of bytes followed by short ones; any call observed with two different outcomes (full comparison including error messages) is a violation; begin/end tickets from one atomic counter show which calls overlapped in time; plus Miri (many seeds) and, in the thorough tier, ThreadSanitizer over a multi-threaded replay; non-trivial = every compared observation; distinct = distinct (evaluator, expression, placeholder, phase)"
     }
     fn assumptions(&self) -> Vec<&'static str> {
         vec![
